@@ -24,12 +24,16 @@ type cfg struct {
 	secret  alpha.NS
 	base    string // "nil", "B", "g1"
 	zeroTop bool
+	large   bool // large n: a menu of subset shapes instead of every subset
 }
 
 func (k cfg) String() string {
 	z := ""
 	if k.zeroTop {
 		z = ",zero-top-coeff"
+	}
+	if k.large {
+		z += ",subset-menu"
 	}
 	return fmt.Sprintf("%s t=%d n=%d secret=%s base=%s%s", k.g.Name, k.t, k.n, k.secret.Name, k.base, z)
 }
@@ -67,11 +71,29 @@ func Run(c *vf.Check) {
 			}
 		}
 	}
+	// large n (the Lagrange products grow with n): a menu of subset shapes
+	bigNs := []int{8, 12, 16, 21, 24, 32}
+	if c.Thorough() {
+		bigNs = []int{8, 10, 12, 16, 20, 21, 22, 24, 28, 32, 40, 64}
+	}
+	edg := groups.ByName("ed25519")
+	for _, n := range bigNs {
+		ts := map[int]bool{1: true, 2: true, n / 2: true, n/2 + 1: true, n - 1: true, n: true}
+		for t := 1; t <= n; t++ {
+			if !ts[t] {
+				continue
+			}
+			cfgs = append(cfgs, cfg{g: edg, t: t, n: n, secret: alpha.NS{Name: "r1", V: alpha.Rand("c07-secret", edg.Order)}, base: "g1", large: true})
+			if t == n/2 {
+				cfgs = append(cfgs, cfg{g: edg, t: t, n: n, secret: alpha.NS{Name: "0", V: big.NewInt(0)}, base: "nil", large: true})
+			}
+		}
+	}
 	vf.Parallel(len(cfgs), func(i int) { runCfg(c, cfgs[i]) })
 	c.Finish("engine E/S: for every (t,n) with 1<=t<=n<=N (N=5 Ed25519, 3-4 other families; thorough 7/4-5), secrets {0,1,q-1,r1}, bases {nil, explicit B, independent g1}, dealer polynomials with fixed seeded coefficients (one variant with zero top coefficient): "+
 		"every subset of the n shares x every arrangement (all permutations for |subset|<=4, else sorted/reversed/rotated/shuffled) x nil-gap patterns {compact, at own index, leading nil, trailing nils} x {no extra, one share repeated}; RecoverSecret/RecoverCommit/RecoverPriPoly/RecoverPubPoly must return the dealer's secret/commitment/all coefficients when >= t distinct shares are present and an error otherwise, twice with identical bytes, leaving the input shares unchanged; "+
 		"PriPoly.Eval = math/big model; PubPoly.Eval(i) = Commit(PriPoly.Eval(i)); Check over the share alphabet {honest, +1, other index's value, 0, index >= n on the polynomial}; Add/Mul commute with Eval and Commit. "+
-		"non-trivial = subset size within [t-1, n] with a non-identity arrangement or gaps; distinct by (config, arrangement)",
+		"Large n in {8,12,16,21,24,32} (thorough up to 64), t in {1,2,n/2,n/2+1,n-1,n} on Ed25519: a menu of subset shapes {first t, last t, evens-then-odds, middle t, all n, t-1 (refused), t+1} in sorted / reversed / rotated / shuffled order, compact and at-own-index. non-trivial = subset size within [t-1, n] with a non-identity arrangement or gaps; distinct by (config, arrangement)",
 		[]string{"math/big polynomial evaluation is the reference", "Go map iteration order inside Recover* is not controlled; every recovery is executed twice and must give identical bytes"}, nil)
 }
 
@@ -89,6 +111,13 @@ func perms(a []int) [][]int {
 	return out
 }
 
+func gcd(a, b int) int {
+	for b != 0 {
+		a, b = b, a%b
+	}
+	return a
+}
+
 func orders(sub []int) [][]int {
 	if len(sub) <= 4 {
 		return perms(sub)
@@ -97,15 +126,14 @@ func orders(sub []int) [][]int {
 	rev := make([]int, n)
 	rot := make([]int, n)
 	shf := make([]int, n)
+	mul := 3
+	for gcd(mul, n) != 1 {
+		mul++
+	}
 	for i := range sub {
 		rev[i] = sub[n-1-i]
 		rot[i] = sub[(i+1)%n]
-		shf[i] = sub[(i*3+2)%n] // 3 is coprime to 5 and 7
-	}
-	if n%3 == 0 {
-		for i := range sub {
-			shf[i] = sub[(i*5+1)%n]
-		}
+		shf[i] = sub[(i*mul+2)%n] // mul is coprime to n: a permutation
 	}
 	return [][]int{append([]int{}, sub...), rev, rot, shf}
 }
@@ -240,6 +268,15 @@ func runCfg(c *vf.Check, k cfg) {
 		if !psum.Equal(sum.Commit(base)) {
 			x.Failf(pk+"/PubPoly.Add", "Commit(p)+Commit(q) != Commit(p+q)")
 		}
+		if bb, _ := psum.Info(); (bb == nil && base != nil) || (bb != nil && !bb.Equal(effBase)) {
+			x.Failf(pk+"/PubPoly.Add", "the sum of two commitment polynomials over base %s reports another base", k.base)
+		}
+		for i := 0; i < k.n; i++ {
+			if !psum.Check(sum.Eval(uint32(i))) {
+				x.Failf(pk+"/PubPoly.Add", "(P+Q).Check rejects the share %d of p+q (base %s)", i, k.base)
+				break
+			}
+		}
 		for i := 0; i < k.n+1; i++ {
 			a, b := poly.Eval(uint32(i)).V, p2.Eval(uint32(i)).V
 			c.Eval(3)
@@ -269,14 +306,40 @@ func runCfg(c *vf.Check, k cfg) {
 	for i := range pri {
 		priEnc[i], _ = pri[i].V.MarshalBinary()
 	}
-	// every subset x arrangement
-	for mask := 0; mask < 1<<k.n; mask++ {
-		var sub []int
-		for i := 0; i < k.n; i++ {
-			if mask>>i&1 == 1 {
-				sub = append(sub, i)
+	// every subset x arrangement (large n: a menu of subset shapes)
+	var subsets [][]int
+	if !k.large {
+		for mask := 0; mask < 1<<k.n; mask++ {
+			var sub []int
+			for i := 0; i < k.n; i++ {
+				if mask>>i&1 == 1 {
+					sub = append(sub, i)
+				}
 			}
+			subsets = append(subsets, sub)
 		}
+	} else {
+		rng := func(a, b int) []int {
+			var o []int
+			for i := a; i < b; i++ {
+				o = append(o, i)
+			}
+			return o
+		}
+		var evenOdd []int
+		for i := 0; i < k.n; i += 2 {
+			evenOdd = append(evenOdd, i)
+		}
+		for i := 1; i < k.n; i += 2 {
+			evenOdd = append(evenOdd, i)
+		}
+		mid := (k.n - k.t) / 2
+		subsets = [][]int{rng(0, k.t), rng(k.n-k.t, k.n), evenOdd[:k.t], rng(mid, mid+k.t), rng(0, k.n), rng(0, k.t-1), rng(k.n-k.t+1, k.n)}
+		if k.t < k.n {
+			subsets = append(subsets, rng(0, k.t+1), rng(k.n-k.t-1, k.n))
+		}
+	}
+	for _, sub := range subsets {
 		if c.Thorough() && k.n > 5 && len(sub) != k.t-1 && len(sub) != k.t && len(sub) != k.t+1 && len(sub) != k.n && len(sub) != 0 {
 			continue
 		}
@@ -287,6 +350,9 @@ func runCfg(c *vf.Check, k cfg) {
 				}
 				for _, dup := range []bool{false, true} {
 					if dup && (len(ord) == 0 || oi > 1) {
+						continue
+					}
+					if k.large && (gap == "leading-nil" || gap == "trailing-nils" || (oi > 1 && dup)) {
 						continue
 					}
 					// build the slices
@@ -360,8 +426,8 @@ func runCfg(c *vf.Check, k cfg) {
 			return
 		}
 	}
-	c.Count("states", int64(1)<<k.n)
-	c.Count("traces_validated_against_impl", int64(1)<<k.n)
+	c.Count("states", int64(len(subsets)))
+	c.Count("traces_validated_against_impl", int64(len(subsets)))
 }
 
 func recoverAll(c *vf.Check, x *vf.Ctx, k cfg, pk string, ps []*share.PriShare, qs []*share.PubShare, enough bool, wantSecret, wantCommit []byte, wantCoeffs, wantCommits [][]byte) {
